@@ -21,7 +21,7 @@ NON_REENTRANT = {
 
 
 def rules(chk, db):
-    chk.rule('S1', 'every object with static storage duration under include/nop is thread_local or immutable '
+    chk.rule('S1', 'every object with static storage duration under include/nop is immutable, or the thread_local slot of ThreadLocal '
                    '(const/constexpr type without mutable members)')
     chk.rule('S2', 'ThreadLocal<T,Slot> storage is a thread_local static local of a static member of the class template '
                    'specialisation (one object per thread per (T,Slot))')
@@ -40,12 +40,16 @@ def rules(chk, db):
         where = '%s:%d' % (s['file'], s['loc']['l'])
         name = (s.get('fn', '') + '::' if s.get('fn') else '') + s['q']
         immutable = (s['constexpr'] or s['const']) and not s.get('has_mutable')
-        okay = s['tls'] or immutable
+        # mutable thread_local storage is the job of ThreadLocal<T, Slot> alone: anywhere else it is state that survives from one call
+        # to the next on the same thread (a scratch object that is never reset makes a decode depend on the previous one)
+        sanctioned = s.get('rect', '').endswith('::ThreadLocal') or '::ThreadLocal<' in (s.get('fn') or '') or (s.get('fn') or '').startswith('nop::ThreadLocal')
+        okay = immutable or (s['tls'] and sanctioned)
         chk.decide(okay, 'S1', where,
                    'static-storage object `%s` of type %s: %s' % (
                        name, s['t'][:60],
-                       'thread_local' if s['tls'] else ('immutable' if immutable else
-                                                        'shared by all threads and mutable')),
+                       'immutable' if immutable else (('thread_local slot of ThreadLocal' if sanctioned else
+                                                       'thread_local but mutable state OUTSIDE ThreadLocal: it survives between calls on the same thread')
+                                                      if s['tls'] else 'shared by all threads and mutable')),
                    function=name)
         if s.get('rect', '').endswith('::ThreadLocal'):
             tl_statics.append(s)
